@@ -696,6 +696,21 @@ func init() {
 		externals["encoding/json.Unmarshal"] = func(fr *frame, args []value) value {
 			return jsonUnmarshal(fr, args[0].([]value), args[1].(iface))
 		}
+		// common.ToJSON = json.NewEncoder(buf).Encode(entity): the JSON text plus a newline in a bytes.Buffer
+		externals["0chain.net/core/common.ToJSON"] = func(fr *frame, args []value) value {
+			r := jsonMarshal(fr, args[0].(iface)).(tuple)
+			bp := fr.i.prog.ImportedPackage("bytes")
+			if bp == nil {
+				panic(unsupported("common.ToJSON: package bytes not loaded"))
+			}
+			if e := r[1].(iface); e.t != nil {
+				var nilBuf *value
+				return tuple{nilBuf, e}
+			}
+			data := append(append([]value{}, r[0].([]value)...), uint8('\n'))
+			buf := call(fr.i, fr, fr.callpos, bp.Func("NewBuffer"), []value{data})
+			return tuple{buf, iface{}}
+		}
 		externals["encoding/json.Valid"] = func(fr *frame, args []value) value { return json.Valid(valuesToBytes(args[0].([]value))) }
 	})
 }
